@@ -99,7 +99,7 @@ func runC15(c *Ctx) {
 			return ok && spec.ev(call)
 		})
 		reached := map[ssa.Instruction]bool{}
-		r := &esp.Rule{Name: "C15." + spec.rule, Flag: flag}
+		r := &esp.Rule{Name: "C15." + spec.rule, Flag: flag, GoAsCall: true} // the flags never change after parsing (R3): a goroutine started here sees them as the spawn point does
 		r.Relevant = func(f *ssa.Function) bool { return relevant[f] }
 		r.Match = func(in ssa.Instruction) []esp.Ev {
 			call, ok := in.(ssa.CallInstruction)
